@@ -14,7 +14,7 @@ MANIFEST = dict(
           "model equals MergePatch(target, patch) of RFC 7386 for every pair of documents, member by member (null deletes, "
           "objects merge recursively, anything else replaces), and the path form equals merging the wrapped value; the model is "
           "tied to the code by a differential run of jbn_merge_patch (pool and heap), jbn_merge_patch_from_json, jbn_patch_auto, "
-          "jbl_merge_patch, jbl_merge_patch_jbl and jbn_merge_patch_path against the compiled Lean definitions, with an "
+          "jbl_merge_patch, jbl_merge_patch_jbl, jbn_merge_patch_path and iwjsreg_merge against the compiled Lean definitions, with an "
           "independent python RFC 7386 function as oracle; heap mode runs under ASan (double free / use after free)"),
     note=("trusted: Lean kernel, harness/generator, python oracle, gcc+ASan/UBSan; modelled not verified: the C control flow of "
           "the functions named; documents have unique keys (ignoring ASCII case), no NUL bytes; binn encode/decode and JSON "
@@ -128,7 +128,7 @@ def case_merge(r):
 
 
 def case_path(r):
-    mode = r.choice(["pool", "heap"])
+    mode = r.choice(["pool", "heap", "reg"])
     target = G.gen_doc(r, depth=r.choice([2, 3]), container=True)
     if not isinstance(target, dict) or r.random() < 0.1:
         target = {"a": target, "b": {"c": {"d": 1}}}
@@ -301,12 +301,12 @@ def selftest_note(ctx):
 
 def build(ctx):
     impl = C.build_impl("asan")
-    return C.build_harness(impl, "h_c16", ["h_c16.c"])
+    return C.build_harness(impl, "h_c16", ["h_c16.c"], exclude=("iwjsreg.c",))
 
 
 def run(ctx):
     ctx.cov["rule"] = ("a case = one target document x one patch document sent to one of the entry points (jbn_merge_patch pool/heap, "
-                       "jbn_merge_patch_from_json, jbn_patch_auto, jbl_merge_patch, jbl_merge_patch_jbl, jbn_merge_patch_path pool/heap); "
+                       "jbn_merge_patch_from_json, jbn_patch_auto, jbl_merge_patch, jbl_merge_patch_jbl, jbn_merge_patch_path pool/heap, iwjsreg_merge); "
                        "patches are generated from the target so that members are deleted, merged, replaced across types in both "
                        "directions, added, with nested nulls, empty objects, nulls inside arrays, keys that are prefixes of one another; "
                        "also non-object patches and non-object targets; distinct = distinct op line; every case performs a merge")
@@ -318,7 +318,7 @@ def run(ctx):
     ok, drv_ok = ctx.prove(MODULE, THEOREMS)
     h = build(ctx)
     drv = C.drv_path() if drv_ok else None
-    n = 20000 if ctx.tier == "quick" else 250000
+    n = 60000 if ctx.tier == "quick" else 400000
     explore(ctx, h, drv, n, "main")
     if ctx.proof_broken or ctx.corr_broken:
         ctx.log("obligation or correspondence broken: widening the search for a failing input")
